@@ -5,6 +5,8 @@ open DV DV.Proto
 
 def bad : String := "bad-op"
 
+def showList' (l : List Int) : String := "[" ++ showList toString l ++ "]"
+
 instance : Inhabited Rat := ⟨0⟩
 
 def stepLine (line : String) : String :=
@@ -32,6 +34,53 @@ def stepLine (line : String) : String :=
       if t1 = t0 then "zero-division" else
       s!"{showRat (Gen.Hermite.call t0 t1 p0 p1 m0 m1 te)} {showRat (Gen.Hermite.grad t0 t1 p0 p1 m0 m1 te)}"
     | _ => bad
+  -- tab rk|split <name> : checksum of the generated table the driver was compiled with
+  | ["tab", "rk", name] =>
+    match Gen.allRK.find? (·.name == name) with
+    | some T => s!"{T.K} {T.order} {showList toString T.c} {showList (showList' ) T.A} {showList showList' T.bs}"
+    | none => "unknown-method"
+  | ["tab", "split", name] =>
+    match Gen.allSplit.find? (·.name == name) with
+    | some T => s!"{T.K} {T.order} {showList toString T.col0} {showList toString T.drift} {showList toString T.kick}"
+    | none => "unknown-method"
+  -- order rk <name> <row> <pmax> <tolDen> : attained order, level sizes
+  | ["order", "rk", name, row, pmax, tolDen] =>
+    match Gen.allRK.find? (·.name == name), row.toNat?, pmax.toNat?, tolDen.toNat? with
+    | some T, some row, some pmax, some tolDen =>
+      let P := Trees.ofRK T row
+      s!"{Trees.attainedOrder P pmax tolDen} {Trees.rowSumsOk T tolDen} {Trees.estimatorConsistent T tolDen} {showList toString (Trees.levelSizes P pmax)}"
+    | _, _, _, _ => bad
+  | ["order", "split", name, alt, pmax, tolDen] =>
+    match Gen.allSplit.find? (·.name == name), pmax.toNat?, tolDen.toNat? with
+    | some T, some pmax, some tolDen =>
+      let P := Trees.ofSplit T (alt == "alt")
+      s!"{Trees.attainedOrder P pmax tolDen} {showList toString (Trees.levelSizes P pmax)}"
+    | _, _, _ => bad
+  -- worst <rk|split> <name> <n> : largest residual |b·Φ − 1/γ| among the trees with n vertices
+  | ["worst", kind, name, n] =>
+    let P? : Option Trees.PTab := if kind == "rk" then (Gen.allRK.find? (·.name == name)).map (Trees.ofRK ·)
+      else (Gen.allSplit.find? (·.name == name)).map (Trees.ofSplit ·)
+    match P?, n.toNat? with
+    | some P, some n =>
+      if n = 0 then bad else
+      let lv := (Trees.buildLevels P n).getD (n - 1) []
+      let res := lv.map (fun e =>
+        let S : Rat := (Trees.dot (P.b e.colour) e.phi : Int) / ((2 ^ (P.K * n) : Nat) : Int)
+        let r := S - 1 / ((n * e.g : Nat) : Int)
+        if r < 0 then -r else r)
+      showRat (res.foldl (fun a b => if a < b then b else a) 0)
+    | _, _ => bad
+  -- rich <mLast> <v0,v1,..> : returned increment and error estimate of the extrapolation table
+  | ["rich", m, vals] =>
+    match m.toNat?, parseList? parseRat? vals with
+    | some m, some vals =>
+      if m = 0 ∨ vals.length ≤ m then bad else
+      s!"{showRat (Richardson.returned vals m)} {showRat (Richardson.diff vals m)}"
+    | _, _ => bad
+  | ["richorder", p, R] =>
+    match p.toNat?, R.toNat? with
+    | some p, some R => s!"{Richardson.effectiveOrder p R} {showList showRat (Richardson.weights R)}"
+    | _, _ => bad
   | [] => ""
   | _ => bad
 
